@@ -9,6 +9,10 @@ CHECKS = [
      "text": "Bounded symbolic model checking of the real formatters (JSON, SARIF, text) on up to 3 violations whose line/column are unbounded solver integers: 1-based SARIF positions, total = count, rule declarations and cross-format agreement are decided by z3 on every path; every linter command's exit code / own-rule filter is explored for all commands x formats x (own, foreign) violation counts and 7 usage-error classes.",
      "note": "Trusted: z3, proxy ints (witnesses are replayed with plain ints through the real json encoder), click's CliRunner, the documented command->rule-id table. json.dumps is a recorder only while ints are symbolic. Surrogate/UTF-8 byte-level claims are not covered (C codec).",
      "technique": TECH},
+    {"property_id": "C07", "design_ref": "DESIGN.md §4 C07",
+     "text": "Bounded symbolic model checking of the real Orchestrator.lint_files_parallel / execute_linting_on_paths against the sequential run on a real multi-language project with all rules (sqlite-backed cross-file rules included): max_workers / cpu_count are solver integers in [1,16] (the 2 x workers fallback threshold is decided symbolically), file counts and completion orders of the futures are forked; full Violation records and exit status are compared; Violation.to_dict/from_dict round trip with unbounded symbolic ints.",
+     "note": "Trusted: z3, proxy ints, the in-process executor stub (isolation of work items), scripted as_completed. OS scheduling of real worker processes is replaced by the permutation stub. Known finding C07-parallel-loses-cross-file is listed in KNOWN_FINDINGS.jsonl.",
+     "technique": TECH},
 ]
 
 DONE = {int(c['property_id'][1:]) for c in CHECKS} | {19}
